@@ -13,6 +13,11 @@ def plans(tier):
     return mc, sim
 
 
+def _cer10(host):
+    from .. import nodetrace as nt
+    return nt.M("CE", True, 1, 1, oh=host, auth=[4])
+
+
 def enum_plans(tier):
     th = tier == "thorough"
     # one connection: requests sent with a short timeout; answers in time, late (after the timeout) and repeated
@@ -25,4 +30,8 @@ def enum_plans(tier):
             dict(cfg="TWOAPPS", depth=4 if th else 3, maxtime=1, alpha=["sendh", "sans"], faults=False, maxconn=2, prefix=two_ready_prefix()),
             # the library's own selection callback (select_least_used_peer) between two eligible ready peers whose request
             # counters are moved apart and level again by watchdog requests on either connection
-            dict(cfg="HOLD2", depth=6 if th else 5, maxtime=0, alpha=["sendd", "dwr"], faults=False, maxconn=2, prefix=two_ready_prefix())]
+            dict(cfg="HOLD2", depth=6 if th else 5, maxtime=0, alpha=["sendd", "dwr"], faults=False, maxconn=2, prefix=two_ready_prefix()),
+            # three peers: the first is dialled at start and not through its exchange (it has a connection, which is not ready, and
+            # the fewest requests), the other two are ready - the callback must be offered exactly the ready ones
+            dict(cfg="THREE", depth=3 if th else 2, maxtime=0, alpha=["sendd", "send1", "dwr"], faults=False, maxconn=3,
+                 prefix=[{"a": "connect"}, {"a": "connect"}, {"a": "feed", "c": 2, "ms": [_cer10("p2.r1")]}, {"a": "feed", "c": 3, "ms": [_cer10("p3.r1")]}])]
